@@ -32,10 +32,10 @@ CONFIGS = {
     "MC_Teardown_q": dict(CfgSet="TinyCfg", MaxWrites=1, Faults='{"cutsrc", "endsrc", "cutsink", "softcut"}', MuxDroppers='{"A", "B"}', MaxHandles=1, MaxCtr=1),
     "MC_Teardown": dict(CfgSet="CloseCfgs", MaxWrites=2, Closers='{"A"}', Faults='{"cutsrc", "endsrc", "cutsink", "softcut"}', MuxDroppers='{"A", "B"}', MaxHandles=1, MaxCtr=1),
     # C11: datagram bursts against small buffers, interleaved with a stream
-    "MC_Dgram_q": dict(CfgSet="DgCfgs", DgSenders='{"A"}', MaxDgrams=3, MaxCtr=3, MaxOpens=0),
-    "MC_Dgram": dict(CfgSet="DgCfgs", DgSenders='{"A", "B"}', MaxDgrams=3, MaxWrites=1, MaxCtr=4, MaxOpens=1, MaxHandles=1),
+    "MC_Dgram_q": dict(CfgSet="DgCfgs", DgSenders='{"A", "B"}', MaxDgrams=2, MaxWrites=1, MaxCtr=5, MaxOpens=1, MaxHandles=1),
+    "MC_Dgram": dict(CfgSet="DgCfgs", DgSenders='{"A", "B"}', MaxDgrams=3, MaxWrites=2, MaxCtr=7, MaxOpens=1, MaxHandles=1),
     # C15: bind requests, every answer
-    "MC_Bind_q": dict(CfgSet="BindCfgs", Binders='{"A"}', MaxBinds=2, MaxCtr=2, MaxOpens=0, Ids="{1, 2}"),
+    "MC_Bind_q": dict(CfgSet="BindCfgs", Binders='{"A"}', MaxBinds=2, MaxCtr=3, MaxOpens=1, MaxWrites=0, MaxHandles=1, Ids="{1, 2}"),
     "MC_Bind": dict(CfgSet="BindCfgs", Binders='{"A", "B"}', MaxBinds=2, MaxCtr=3, MaxOpens=0, Ids="{1, 2}", MuxDroppers='{"B"}'),
     # C13: the acceptor bridges its stream to a scripted local side; every environment at every poll
     "MC_Bridge_q": dict(CfgSet="TinyCfg", MaxWrites=1, Bridgers='{"B"}', Closers='{"A"}', MaxHandles=1, MaxCtr=1),
